@@ -430,6 +430,13 @@ def rule_d(chk, prog, fs):
                     chk.violation("C06.d", f"{fi.module}:{fi.qualname}", sto.text, "the harvest flag is assigned a non-literal", loc=fi.loc(sto.node))
     chk.floor("C06.d-writers", nfs, 1, "stores to final_stats")
     chk.floor("C06.d-clear", nclear, 1, "clearing stores of harvest_flag")
+    reset_paired_with_counter(chk, prog, "C06.d")
+
+
+def reset_paired_with_counter(chk, prog, rule: str):
+    """(C06.d, shared with C12.g) the season reset is called only right after the season counter has been advanced to the season that starts:
+    the reset converts the calendar of, and applies the CO2 adjustment to, Seasonal_Crop_List[season_counter] - called before the increment it
+    re-adjusts the crop of the season that has just ended and the new season runs on unconverted parameters."""
     # the reset is called only together with season_counter + 1
     up = prog.find_func("update_time")
     fl = flow_of(up)
@@ -450,10 +457,10 @@ def rule_d(chk, prog, fs):
                     return _is_increment(fl.cfg.nodes[ds[0]].ast.value, ds[0], depth + 1)
             return False
         if inc and _is_increment(inc[0].value, fl.stmt_node[id(inc[0])]):
-            chk.ok("C06.d", f"{up.module}:{up.qualname}", construct)
+            chk.ok(rule, f"{up.module}:{up.qualname}", construct)
         else:
-            chk.violation("C06.d", f"{up.module}:{up.qualname}", construct, "the season reset is not paired with the increment of the season counter", loc=up.loc(c))
-    chk.floor("C06.d-reset", len(calls), 2, "calls of the season reset")
+            chk.violation(rule, f"{up.module}:{up.qualname}", construct, "the season reset is not paired with the increment of the season counter", loc=up.loc(c))
+    chk.floor(rule + "-reset", len(calls), 2, "calls of the season reset")
 
 
 def tcols(chk, prog, rule="T-COLS"):
